@@ -58,7 +58,17 @@ def run_file_case(case):
         return run_history_case(case)
     res = core.Result(evals=0)
     method, cap, cont = case["method"], case["cap"], case["cont"]
-    m = physics.manager(method, pipe=case.get("pipe", "single"), load=case["load"], months=24, cap=cap, cont=cont)
+    try:
+        m = physics.manager(method, pipe=case.get("pipe", "single"), load=case["load"], months=24, cap=cap, cont=cont)
+    except ValueError:
+        res.outcome("ValueError")
+        res["states"], res["transitions"] = [], []
+        return res
+    except Exception as e:  # noqa: BLE001
+        res["evals"] += 1
+        res["violations"].append(core.viol("wrong_exception_type", case, msg=f"{method}: configuring the design (cap {cap!r}) raised {type(e).__name__}: {e}", exc=type(e).__name__, method=method, via="api"))
+        res["states"], res["transitions"] = [], []
+        return res
     tmp = Path(tempfile.mkdtemp(prefix="vf-c02-"))
     try:
         f = tmp / "in.json"
